@@ -4,7 +4,7 @@ import random
 
 from vf import engine_p
 from vf import execharness as H
-from vf.props.c04 import compare
+from vf.props.c04 import abandoned_below, compare
 from vf.report import MachineryDefect, Run
 
 DEFERRED_SETS = [
@@ -41,7 +41,7 @@ def explore(schema, query, variables, world, config, exp, cap, w, eager=()):
         if got["outcome"] == "pending":
             fails.append(("execute:completes-when-all-resolvers-completed", ww, "all parked resolver tasks were run but the overall result is still pending"))
         else:
-            bad = compare(exp, got)
+            bad = compare(exp, got, ignore_below=abandoned_below(world))
             if bad:
                 fails.append((bad[0].replace("execute:", "runtime:"), ww, "%s under completion order %r: %s" % (config, sched.taken, bad[1])))
         prefix = H.next_prefix(sched)
@@ -60,7 +60,7 @@ def _chunk(args):
             got = H.run_request(H.make_schema(dset), query, variables, world, cfg)
             w["_outcomes"].add(got["outcome"])
             n += 1
-            bad = compare(exp, got)
+            bad = compare(exp, got, ignore_below=abandoned_below(world))
             if bad:
                 fails.append((bad[0].replace("execute:", "runtime:"), dict({k: v for k, v in w.items() if k != "_outcomes"}, config=cfg), "%s: %s" % (cfg, bad[1])))
         for cfg, asyn in (("executor-threadpool", False), ("executor-asyncio", True)):
